@@ -42,7 +42,7 @@ MUST_REACH = [
     "client.Authenticated.do_move",
 ]
 BOUNDS = {
-    "quick": {"messages": "n = 3", "sessions": 2, "epoch": "1-2 operations by A (12 kinds) then 1 command by B (6 kinds) then flush", "symbolic": "\\Deleted subset, B idling, sequence numbers 1..n, UID set u or u:* with u in 4..7 (quick) / 3..8 (thorough), number of delivered messages 0..2"},
+    "quick": {"messages": "n = 3", "sessions": 2, "epoch": "1-2 operations by A (12 kinds) then 1 command by B (8 kinds, incl. re-SELECT / re-EXAMINE of the selected mailbox) then flush", "symbolic": "\\Deleted subset, B idling, sequence numbers 1..n, UID set u or u:* with u in 4..7 (quick) / 3..8 (thorough), number of delivered messages 0..2"},
     "thorough": {"messages": "n in 2..4", "sessions": 2, "epoch": "same menu, every (opA, opB) pair for every n"},
 }
 SYMBOLIC = ["\\Deleted membership per message", "observer idling", "sequence number of the observer's command", "sequence number of the actor's command", "UID range endpoints", "delivered message count"]
@@ -56,7 +56,7 @@ KEYS = [2, 3, 7, 8]
 UIDS = [3, 5, 6, 9]
 
 OPS_A = ["none", "expunge", "uid_expunge", "store", "deliver", "append", "move", "close", "copy_same", "expunge_deliver", "idle_expunge", "check"]
-OPS_B = ["noop", "fetch", "uidfetch", "store", "search", "idle_done"]
+OPS_B = ["noop", "fetch", "uidfetch", "store", "search", "idle_done", "reselect", "reexamine"]
 
 
 def _expect_ok(r, tag, who):
@@ -205,6 +205,20 @@ def _epoch(d1, d2, d3, d4, bidle, sa, sb, u, star, nd):
         r = w.issue(B, "b1 SEARCH 1", )
         _expect_ok(r, tag, "B")
         B.replay(tag, in_nonuid_cmd=True)
+    elif opb in ("reselect", "reexamine"):
+        # B selects the mailbox it already has selected: the SELECT data replaces its view, and
+        # nothing queued before it may be applied to the new view afterwards
+        r = w.issue(B, "b1 SELECT inbox" if opb == "reselect" else "b1 EXAMINE inbox")
+        _expect_ok(r, tag, "B")
+        lines = B.new_lines()
+        ex = [ln for ln in lines if ln.startswith("* ") and ln.rstrip().endswith(" EXISTS")]
+        tl = tagged_lines(lines, "b1")
+        check(len(tl) == 1 and tl[0].startswith("b1 OK") and len(ex) == 1, "C01/epoch/select_not_answered_with_exists", lines=lines)
+        cnt = int(ex[0].split()[1])
+        check(cnt == len(mb.uids), "C01/epoch/select_reports_other_count", reported=cnt, server=list(mb.uids))
+        from asv.refmodel.view import View
+
+        B.view = View([None] * cnt)
     elif opb == "idle_done":
         if not bidle:
             r = w.issue(B, "b1 IDLE")
@@ -235,7 +249,7 @@ def _epoch(d1, d2, d3, d4, bidle, sa, sb, u, star, nd):
 
 def _size(n, opa, opb, nu):
     a = {"none": 1, "expunge": 2**n, "uid_expunge": 2**n * nu, "store": n, "deliver": 3, "append": 1, "move": n, "close": 2**n, "copy_same": n, "expunge_deliver": 2**n * 3, "idle_expunge": 3, "check": 3}[opa]
-    b = {"noop": 1, "fetch": n, "uidfetch": 1 if opa == "uid_expunge" else nu, "store": n, "search": 1, "idle_done": 1}[opb]
+    b = {"noop": 1, "fetch": n, "uidfetch": 1 if opa == "uid_expunge" else nu, "store": n, "search": 1, "idle_done": 1, "reselect": 1, "reexamine": 1}[opb]
     return a * b * 2
 
 
